@@ -860,6 +860,39 @@ def short_circuit(F, rep):
     rep.floor(P + " short-circuit shapes", n, 3)
 
 
+
+def function_end(F, rep, rule="C09.function-end"):
+    """The forward jumps of a trailing `if` (`if_stmt N` without else, the `jmp M` behind an if-arm) target the slot one past the statement's closing
+    `done`.  Inside a body that slot holds the next statement; at the end of a function it holds the implicit `void; ret` that Function::compile
+    appends - unless the body's *last* instruction is `ret`, in which case nothing jumps past it (a `ret` that ends the body is the code of a
+    `return` statement standing at block level).  So the decision not to append looks at the last item of the body and at no earlier one: looking
+    past trailing `done`s (`.. ret done`) removes the landing slot of the if's own exits."""
+    fc = [g for g in F.crates["compiler"].fns if g.path.endswith("function::Function as compiler::ast::Compile>::compile")]
+    if len(fc) != 1:
+        raise AnchorMissing("<Function as Compile>::compile")
+    g = fc[0]
+    bodies = [g] + F.closures_of(g)
+    pushes = [c for c in g.calls() if mir.short(c.callee()).endswith("Vec::push")]
+    lasts = [c for c in g.calls() if mir.strip_generics(c.callee()).endswith("[T]>::last") or mir.short(c.callee()).endswith("]::last")
+             or mir.short(c.callee()) == "[T]::last"]
+    SCANS = ("::rev", "::find", "::rfind", "::rposition", "::position", "::skip_while", "::take_while", "::rfind_map", "::find_map", "::nth_back", "::next_back",
+             "::rsplit", "::iter", "::any", "::all", "::ends_with")
+    # only what is done to the compiled body counts (the value that comes out of <Block as Compile>::compile, and whatever is made from it)
+    src = [c.dst["l"] for c in g.calls() if "function_body::Block as compiler::ast::Compile>::compile" in c.callee()]
+    if not src:
+        raise AnchorMissing("<Block as Compile>::compile in Function::compile")
+    der = g.derived(src, through_call=lambda c, idx: True)
+    scans = sorted({mir.short(c.callee()) for c in g.calls() if mir.strip_generics(c.callee()).endswith(SCANS) and c.args and op_local(c.args[0]) in der})
+    lasts = [c for c in lasts if c.args and op_local(c.args[0]) in der]
+    if not pushes:
+        raise AnchorMissing("the implicit return pushed by Function::compile")
+    st = "ok" if lasts and not scans else "violated"
+    rep.ob(rule, "Function::compile leaves out the implicit `void; ret` only when the last item of the body is `ret`", st,
+           "" if st == "ok" else ("the body is examined through %s (no plain last()): with `.. ret done` at the end no implicit return is appended and the exits of the "
+                                  "trailing `if` jump to an index equal to the function's length (`goto position index N is too big`)" % (scans or "something else")),
+           g.span, fn=g.path, key=rule)
+
+
 def run(ctx, rep):
     F = ctx.facts("default", ["compiler", "bytecode"])
     rep.explain("C09: the control-flow generators are evaluated abstractly over their MIR with opaque children; lengths and jump operands are linear "
@@ -883,6 +916,7 @@ def run(ctx, rep):
     # "each instruction finds the operand-stack shape it requires": handler stack effects x emitted words (props/_opstack.py)
     from props import _opstack
     nd = _opstack.run_clause(F, rep, P + ".operands")
+    function_end(F, rep, P + ".function-end")
     rep.floor(P + ".operands generator shapes decided", nd, 60)
 
 
